@@ -18,8 +18,9 @@ const KEYWORDS: [&str; 52] = [
     "dyn", "abstract", "become", "box", "do", "final", "macro", "override", "priv", "typeof", "unsized", "virtual", "yield", "try", "union",
 ];
 /// names the observers themselves use at module level
-const RESERVED: [&str; 32] = [
-    "vals", "variant_of", "run", "fp", "same", "disc", "expected", "read", "obs", "o", "oracle_eq", "oracle_fields", "field_seqs", "check_clone", "Calls",
+const RESERVED: [&str; 36] = [
+    // (`a`, `b`, `x`, `y`: parameters of the observers; a variant of that name makes rustc refuse them, E0170)
+    "a", "b", "x", "y", "vals", "variant_of", "run", "fp", "same", "disc", "expected", "read", "obs", "o", "oracle_eq", "oracle_fields", "field_seqs", "check_clone", "Calls",
     "RawKey", "Via", "OracleDbg", "Cell", "twin_vals", "addr_deref", "addr_deref_mut", "hostile", "prelude", "educe", "Educe", "Out", "Key", "main", "core", "std", "alloc",
 ];
 
